@@ -135,6 +135,9 @@ pub const EXTRA: &[&str] = &[
     "r1bqk2r/pppp1ppp/2n2n2/2b1p3/2B1P3/2NP1N2/PPP2PPP/R1BQK2R b KQkq - 0 5",
     "r3k2r/pppq1ppp/2npbn2/2b1p3/2B1P3/2NPBN2/PPPQ1PPP/R3K2R w KQkq - 4 8",
     "rnbqk2r/pppp1ppp/5n2/2b1p3/2B1P3/5N2/PPPP1PPP/RNBQK2R w KQkq - 4 4",
+    "r3k2r/ppp2ppp/2n1bn2/3qp3/3P4/2N1PN2/PP2BPPP/R1BQK2R b KQkq - 2 8",
+    "r3k2r/pp1b1ppp/1qn1pn2/2bp4/8/1BNP1N2/PPP1QPPP/R1B1K2R b KQkq - 4 9",
+    "r1bqk2r/ppp1bppp/2n2n2/3pp3/4P3/2PP1N2/PP1NBPPP/R1BQK2R b KQkq - 2 6",
     // exactly one legal move (forced-move shortcuts are a classic special case)
     "k7/8/8/8/8/8/5PP1/r5K1 w - - 0 1",
     "4k3/8/8/8/8/8/4q3/4K3 w - - 0 1",
